@@ -1,3 +1,8 @@
 #!/bin/bash
-# offline setup: pre-build the monitor binary (checks rebuild it anyway)
-exit 0
+# offline setup: warm the Go build cache by building the monitor binary once
+# (every check rebuilds it from /repo's working tree anyway)
+cd "$(dirname "$0")"
+export GOFLAGS=-mod=mod GOPROXY=off GOSUMDB=off GOTOOLCHAIN=local
+export GOCACHE=${GOCACHE:-$(pwd)/.build/gocache}
+mkdir -p .build
+(cd harness && cp -f /repo/go.sum go.sum && go build -tags verif -o ../.build/sipspmon ./cmd/sipspmon && go build -tags verif -race -o ../.build/sipspmon-race ./cmd/sipspmon)
